@@ -623,6 +623,74 @@ pub fn run() -> ConfResult {
             mismatches.push(format!("EPOLLET/EPOLLONESHOT:\n   real {:?}\n   sim  {:?}", real_v, sim_v));
         }
     }
+    // a descriptor inherited by a forked child (here: dup, the same thing to the kernel): closing
+    // the original neither hangs up the connection nor removes the epoll registration made through
+    // it; the registration keeps reporting with the data given at registration and can no longer be
+    // removed by number; it disappears when the last reference goes
+    {
+        // SAFETY: plain descriptor syscalls with valid arguments.
+        let real_v: Vec<String> = unsafe {
+            let mut v = Vec::new();
+            let mut sp = [0i32; 2];
+            libc::socketpair(libc::AF_UNIX, libc::SOCK_STREAM | libc::SOCK_NONBLOCK, 0, sp.as_mut_ptr());
+            let (sfd, pfd) = (sp[0], sp[1]);
+            let ep = libc::epoll_create1(0);
+            let mut ev = libc::epoll_event { events: IN | RDHUP, u64: 77 };
+            libc::epoll_ctl(ep, libc::EPOLL_CTL_ADD, sfd, &mut ev);
+            let child = libc::dup(sfd);
+            libc::close(sfd);
+            let mut out = [libc::epoll_event { events: 0, u64: 0 }; 8];
+            let mut wait = |v: &mut Vec<String>, what: &str| {
+                let n = libc::epoll_wait(ep, out.as_mut_ptr(), 8, 0);
+                let (e0, d0) = (out[0].events, out[0].u64);
+                v.push(if n > 0 { format!("{}: n={} ev={:x} data={}", what, n, e0, d0) } else { format!("{}: n={}", what, n) });
+            };
+            wait(&mut v, "after close");
+            let b = [1u8; 3];
+            libc::write(pfd, b.as_ptr() as *const libc::c_void, 3);
+            wait(&mut v, "peer wrote");
+            let r = libc::epoll_ctl(ep, libc::EPOLL_CTL_DEL, sfd, std::ptr::null_mut());
+            v.push(format!("del by closed number: {} errno {}", r, if r < 0 { errno() } else { 0 }));
+            v.push(format!("peer still connected: poll={:x}", real_poll(pfd, IN | OUT | RDHUP)));
+            libc::close(pfd);
+            wait(&mut v, "peer closed");
+            libc::close(child);
+            wait(&mut v, "last reference closed");
+            libc::close(ep);
+            v
+        };
+        world::reset(Config::default());
+        let sim_v: Vec<String> = world::with(|w| {
+            let mut v = Vec::new();
+            let l = w.bind("/sim/f.sock").unwrap();
+            let conn = w.client_connect("/sim/f.sock").unwrap();
+            let sfd = w.accept(l).unwrap().unwrap();
+            let _ = w.set_nonblocking(sfd, true);
+            let ep = w.epoll_create();
+            let _ = w.epoll_ctl(ep, 1, sfd, IN | RDHUP, 77);
+            w.fork_inherit();
+            w.close(sfd);
+            let wait = |w: &mut world::World, v: &mut Vec<String>, what: &str| {
+                let r = w.epoll_wait(ep, 0, 8).unwrap().unwrap();
+                v.push(if !r.is_empty() { format!("{}: n={} ev={:x} data={}", what, r.len(), r[0].0, r[0].1) } else { format!("{}: n=0", what) });
+            };
+            wait(w, &mut v, "after close");
+            let _ = w.client_send(conn, &[1u8; 3]);
+            wait(w, &mut v, "peer wrote");
+            let r = w.epoll_ctl(ep, 2, sfd, 0, 0);
+            v.push(format!("del by closed number: {} errno {}", if r.is_ok() { 0 } else { -1 }, r.err().unwrap_or(0)));
+            v.push(format!("peer still connected: poll={:x}", w.client_poll(conn) & (IN | OUT | RDHUP | 0x10 | 0x8)));
+            w.client_close(conn);
+            wait(w, &mut v, "peer closed");
+            w.child_exit();
+            wait(w, &mut v, "last reference closed");
+            v
+        });
+        scenarios += 1;
+        if real_v != sim_v {
+            mismatches.push(format!("inherited descriptor / epoll registration after close:\n   real {:?}\n   sim  {:?}", real_v, sim_v));
+        }
+    }
     // the listener becomes readable with a pending connection; the server's fd table
     {
         world::reset(Config::default());
